@@ -4,6 +4,7 @@ import (
 	"context"
 	"fmt"
 	"math"
+	"os"
 	"sort"
 	"strings"
 
@@ -273,6 +274,8 @@ func (r *Runner) ActorsOrdered() bool {
 	}
 	return true
 }
+
+var showStates = os.Getenv("VERIF_SHOW_STATES") != ""
 
 // Step executes one step.
 func (r *Runner) Step(s Step) *Failure {
@@ -909,6 +912,13 @@ func Run(p Program, o RunOpts) (res Result) {
 			r.cur = base + i
 			if f := r.Step(s); f != nil {
 				return f
+			}
+			if showStates {
+				for _, q := range r.Peers {
+					if q.Attached {
+						r.log("      c%d garbage=%d %s", q.Idx, q.D.GarbageLen(), q.D.Marshal())
+					}
+				}
 			}
 		}
 		if f := r.Quiesce(o.Reverse); f != nil {
